@@ -1527,13 +1527,20 @@ class ProvBundle(object):
         for identifier, records in self._id_map.items():
             if len(records) > 1:
                 # more than one record having the same identifier
-                # merge the records
-                merged = records[0].copy()
-                for record in records[1:]:
-                    merged.add_attributes(record.attributes)
-                # map all of them to the merged record
+                # merge the records (of the same type only: an identifier
+                # may name e.g. both an entity and an agent)
+                records_by_type = defaultdict(list)
                 for record in records:
-                    merged_records[record] = merged
+                    records_by_type[record.get_type()].append(record)
+                for records in records_by_type.values():
+                    if len(records) < 2:
+                        continue
+                    merged = records[0].copy()
+                    for record in records[1:]:
+                        merged.add_attributes(record.attributes)
+                    # map all of them to the merged record
+                    for record in records:
+                        merged_records[record] = merged
         if not merged_records:
             # No merging done, just return the list of original records
             return list(self._records)
